@@ -103,7 +103,7 @@ impl<'p> W<'p> {
             }
             Stmt::Ret(Some(e)) | Stmt::Expr(e) => self.expr(e),
             Stmt::Block(b) => self.block(b, ScopeKind::Block),
-            Stmt::Break | Stmt::Continue | Stmt::Ret(None) | Stmt::Unreachable => {}
+            Stmt::Break | Stmt::Continue | Stmt::Ret(None) | Stmt::Unreachable | Stmt::Raw(_) => {}
         }
     }
 
